@@ -28,7 +28,7 @@ PROPS = {
         level='proof',
         trusted_base=TRUSTED_VERUS,
         assumptions=[A2, A9, A10 + '; node_type() / node_name() of a node are uninterpreted functions of the node (namespace nodes answer Attribute in this library)', A11, A8],
-        not_decided='as PROOFS: the attribute axis (NamedNodeMap), namespace nodes as context nodes (their element is not recorded), name tests against expanded names (see C10), the value of a predicate expression itself (eval_predicate is proved to turn a numeric value into `number = position` and any other value into its boolean value, over a named but otherwise unconstrained value), operators on node-sets, string-values, the expression grammar. Bounded and labelled so, both tiers: xpath.corpus_paths / _scalars / _names evaluate 93 750 expressions enumerated from a grammar (12 axes x node tests x 25 predicate shapes from several context paths, the core functions over mixed-type argument pools, the 13 binary operators over 24 x 24 operands, curated paths) over seven documents and compare the value -- node identities for node-sets -- with the value two independent XPath 1.0 implementations agree on exactly (JDK javax.xml.xpath and libxml2; tools/gen_xpath_corpus.py, corpus committed)',
+        not_decided='as PROOFS: the attribute axis (NamedNodeMap), namespace nodes as context nodes (their element is not recorded), name tests against expanded names (see C10), the value of a predicate expression itself (eval_predicate is proved to turn a numeric value into `number = position` and any other value into its boolean value, over a named but otherwise unconstrained value), operators on node-sets, string-values, the expression grammar. Bounded and labelled so, both tiers: xpath.corpus_paths / _scalars / _names evaluate 96 923 expressions enumerated from a grammar (12 axes x node tests x 25 predicate shapes from several context paths, the core functions over mixed-type argument pools, the 13 binary operators over 24 x 24 operands, curated paths) over nine documents and compare the value -- node identities for node-sets -- with the value two independent XPath 1.0 implementations agree on exactly (JDK javax.xml.xpath and libxml2; tools/gen_xpath_corpus.py, corpus committed)',
         explanation='node tests of the evaluator: eval_node_test answers every name test with false for a node that is not of the principal node type of the axis and `*` with true for one that is, text() with text / CDATA / entity-reference nodes, comment() and processing-instruction() by node type, node() always, and processing-instruction(\'t\') by node type and target, for every node; the axes (unit c05_axes, over uninterpreted parent / children / sibling-index functions tied together by a tree well-formedness precondition): ancestor, ancestor-or-self, child, descendant, descendant-or-self, following-sibling, preceding-sibling, following and preceding return exactly the node list XPath 1.0 section 2.2 defines, in axis order (following: the subtrees of the following siblings, then whatever follows the parent; preceding: the reversed subtrees of the preceding siblings, then whatever precedes the parent, ancestors excluded); the core functions count, string, concat, starts-with, contains, substring-before, substring-after, boolean, not, true, false, number, floor, ceiling, round return what XPath 1.0 section 4 prescribes in terms of the string / number / boolean value of their arguments (the conversions themselves are uninterpreted here; scalars: C09)',
     ),
     'C03': dict(
